@@ -28,7 +28,7 @@ class Field:
         and return an updated x and y shift. If None (default), tilt = [].
 
     """
-    __slots__ = ('data', 'offset', 'tilt', 'pixelscale', 'extent')
+    __slots__ = ('data', 'offset', 'tilt', 'pixelscale')
 
     def __init__(self, data, pixelscale=None, offset=None, tilt=None):
         #: ndarray : Complex field data
@@ -45,15 +45,24 @@ class Field:
         tuple of ints or None
         """
         
-        #: tuple of ints : Field offset from (0, 0).
-        self.offset = offset if offset is not None else [0, 0]
+        #: tuple of ints : Field offset from (0, 0). (A copy: the caller may go
+        #: on using the object the offset was given in.)
+        self.offset = list(offset) if offset is not None else [0, 0]
         
         #: list : List of objects that implement the tilt interface defined
         # in :class:`~lentil.plane.TiltInterface`
         self.tilt = tilt if tilt else []
 
-        #: tuple of ints : Extent of ``data``
-        self.extent = lentil.extent.array_extent(self.shape, self.offset)
+    @property
+    def extent(self):
+        """
+        Extent of ``data`` at its current ``offset``
+
+        Returns
+        -------
+        tuple of ints
+        """
+        return lentil.extent.array_extent(self.shape, self.offset)
 
     @property
     def shape(self):
